@@ -499,9 +499,71 @@ def rule_split_threshold(chk, prog):
         (r.bad(q, fn.loc(bad[0]), bad[1]) if bad else r.ok(q, fn.loc(tests[0][0]), "threshold %s" % norm(tests[0][1])))
 
 
+def rule_refine_budget(chk, prog):
+    from ..rules.guards import path_condition, atoms
+    r = chk.rule("REFINE-BUDGET", "Solver::refine's iteration budget guards against cycling, not against large problems: `maxtries` is decremented only "
+                 "in an iteration whose split failed to lower the cost (the decrement is guarded by a comparison of block-set costs), so a "
+                 "problem that needs more than 100 splits is still refined to the end", floor=1)
+    fn = prog.fn("vpsc::Solver::refine")
+    decs = [n for n in fn.nodes() if n.get("k") in ("UnaryOperator", "CompoundAssignOperator") and "maxtries" in norm(n) and ("--" in str(n.get("op", "")) or "-=" in str(n.get("op", "")))]
+    r.count()
+    if not decs:
+        raise AnalysisBroken("Solver::refine: the iteration budget was not found")
+    bad = None
+    for d in decs:
+        ats = atoms(path_condition(fn, d, inline=True))
+        if not any("cost" in a.lower() for a in ats):
+            bad = (d, "the budget is spent in every iteration (condition: %s): a problem with more than 100 independent splits is returned partly refined" % (sorted(ats)[:2] or "none"))
+    (r.bad("Solver::refine", fn.loc(bad[0]), bad[1]) if bad else r.ok("Solver::refine", fn.loc(decs[0])))
+
+
+def rule_split_scale(chk, prog):
+    """Blocks::split: where the right half of a split block is left."""
+    from ..microai.interp import Interp, Obj, Oracle, Unsupported, default_obj
+    from ..microai.poly import Poly, to_poly
+    r = chk.rule("SPLIT-SCALE", "Blocks::split (both solver copies): the statement that parks the right half r while the left half is merged leftwards, "
+                 "evaluated symbolically: it leaves r's variables where they were, i.e. r.posn * r.ps.scale == b.posn * b.ps.scale as an identity "
+                 "in (posn, scales) -- Variable::position() is (block.ps.scale * block.posn + offset) / scale, and the halves of a block of "
+                 "scaled variables need not share the block's scale (with `r->posn = b->posn` refine alternates between two splits for ever)", floor=2)
+    for ns in ("vpsc", "Avoid"):
+        fn = prog.fn(ns + "::Blocks::split")
+        st = [(lhs, node) for lhs, node, op in writes(fn) if op == "=" and norm(lhs) == "r.posn"]
+        r.count()
+        if len(st) != 1:
+            raise AnalysisBroken("%s::Blocks::split: the store to r->posn was not found" % ns)
+        lhs, node = st[0]
+        P, SB, SR = Poly.var("posn"), Poly.var("sb"), Poly.var("sr")
+        b = default_obj(prog, ns + "::Block", {"posn": P})
+        b.f["ps"] = default_obj(prog, ns + "::PositionStats", {"scale": SB})
+        rb = default_obj(prog, ns + "::Block", {"posn": Poly.var("old")})
+        rb.f["ps"] = default_obj(prog, ns + "::PositionStats", {"scale": SR})
+        env = {}
+        for p_ in fn.params:
+            if p_["name"] == "b":
+                env[p_["did"]] = Box(b)
+            elif p_["name"] == "r":
+                env[p_["did"]] = Box(rb)
+        it = Interp(prog, Oracle([]))
+        it.positive = {"sb", "sr"}
+        try:
+            it.ex(node if node.get("k", "").endswith("Stmt") else {"k": "CompoundStmt", "ch": [node]}, env)
+        except Unsupported as e:
+            raise AnalysisBroken("%s::Blocks::split outside the interpreter subset: %s" % (ns, e))
+        from ..microai.poly import r_mul, r_sub, num_den
+        lhs_v = r_mul(rb.f["posn"], SR)
+        rhs_v = r_mul(P, SB)
+        dn, dd = num_den(r_sub(lhs_v, rhs_v))
+        ok = not dn.t
+        (r.ok if ok else r.bad)(ns + "::Blocks::split", fn.loc(node), "" if ok else
+                                "r->posn = %s: r.posn * r.scale - b.posn * b.scale = %s, not identically 0 -- r's variables jump when its scale differs from b's" % (
+                                    norm(node["ch"][1])[:60], dn))
+
+
 def run(chk):
     prog = chk.load()
     PROG[0] = prog
+    chk.guard(rule_refine_budget, chk, prog)
+    chk.guard(rule_split_scale, chk, prog)
     chk.guard(rule_split_threshold, chk, prog)
     chk.guard(rule_block_optimum, chk, prog)
     chk.guard(rule_minlm_argmin, chk, prog)
